@@ -253,12 +253,13 @@ PROPS["C09"] = dict(
     note="sync.Pool reuse cannot be forced or observed from outside; the last history call runs on the probe's goroutine so that the probe normally picks up the context that call returned to the pool. GC may drop pooled objects (covered statistically).",
     rule=("rapid draws the probe and two histories. Non-trivial: a history contains a record longer than the probe, or of another format, or a "
           "colored record of another severity; distinct = (format, severity, named, caller, class set, lengths of both histories)."
-          " Attribute keys include the reserved field names (time often holding a time.Time); the caller file may lie under two path mappings; the probe destination may be re-entrant (logs through another logger inside Write, for emissions 2 and 4). Second test: two levels registered identically must print identically whether or not one was logged while unregistered. A custom level with a foreground colour only is among the severities; histories contain calls with a value whose String method panics (recovered by the caller) and calls with a marshaller that consumes bytes of the encoder it is handed; history calls from the probe's own call site may run under an inverted privacy-path flag or a further path mapping (undone before the probe) or from another working directory; rarely a history record is longer than a megabyte; probes may have the privacy-path flag off. TestTimeLapse: the same call before and after a record issued 1.05 s later from another working directory."),
+          " Attribute keys include the reserved field names (time often holding a time.Time); the caller file may lie under two path mappings; the probe destination may be re-entrant (logs through another logger inside Write, for emissions 2 and 4). Second test: two levels registered identically must print identically whether or not one was logged while unregistered. A custom level with a foreground colour only is among the severities; histories contain calls with a value whose String method panics (recovered by the caller) and calls with a marshaller that consumes bytes of the encoder it is handed; history calls from the probe's own call site may run under an inverted privacy-path flag or a further path mapping (undone before the probe) or from another working directory; rarely a history record is longer than a megabyte; probes may have the privacy-path flag off. TestTimeLapse: the same call before and after a record issued 1.05 s later from another working directory. TestGrowthBoundaries: the same call printed by a context made afresh (pools emptied by two garbage collections, 1024-byte buffer that grows while the record is written) and by the warm one right after, for every padding that puts the growth point on another byte of the record, with and without a marshaller that has consumed bytes of the encoder; non-trivial there: a marshaller consumed bytes."),
     assumptions=["attributes are rebuilt from the same description for every emission (the encoder sorts argument slices in place)"],
     stages=[dict(name="history", run="^TestHistoryIndependence$", quick=8000, thorough=1200000, shards=16, timeout_thorough=3000),
             dict(name="registration", run="^TestRegistrationHistory$", quick=2000, thorough=400000, shards=8, timeout_thorough=3000),
             dict(name="crossprocess", run="^TestCrossProcess$", quick=1, thorough=1, timeout_thorough=3000),
-            dict(name="timelapse", run="^TestTimeLapse$", quick=1, thorough=1)],
+            dict(name="timelapse", run="^TestTimeLapse$", quick=1, thorough=1),
+            dict(name="growth", run="^TestGrowthBoundaries$", quick=24, thorough=4000, shards=16, timeout_thorough=3000)],
 )
 
 PROPS["C11"] = dict(
